@@ -103,5 +103,5 @@ def scaled(x: Any, k: int) -> int:
     """round(x * k) as int; NaN/inf -> sentinel -2^30 so that TLC sees a wrong value rather than a crash."""
     f = float(x)
     if math.isnan(f) or math.isinf(f):
-        return -(2 ** 30)
-    return int(round(f * k))
+        return -7777          # small enough that TLC's 32-bit arithmetic on it cannot overflow
+    return max(-10 ** 6, min(10 ** 6, int(round(f * k))))
